@@ -552,3 +552,9 @@ func TestC02_WordsHostileProduct(t *testing.T) {
 	st.SetExhaustive()
 	st.Note("enumerated", fmt.Sprintf("uint128.div and uint192.div over the full product of %d hostile words per operand word", len(words)))
 }
+
+func init() {
+	// enumerations and word patterns: not argument tuples of a library entry point
+	hookReduce.NoHistory()
+	hookWord.NoHistory()
+}
